@@ -170,6 +170,10 @@ type World struct {
 	HoldRound uint64
 	hijacked  map[[2]uint64]bool
 	pushed    map[[3]uint64]bool
+	// rules[phase][destination side] of the "rules" profile: 0 free, 1 withheld across sides,
+	// 2 withheld from everybody but the sender; bind rounds <= ruleRounds
+	rules      [8][2]int
+	ruleRounds uint64
 	// curLag is the node that currently hears nothing under the "rotlag" profile (-1: none)
 	curLag int
 	// rebroadcasting is set while a RequestRebroadcast is being served
